@@ -3,6 +3,7 @@
 mod fam_be;
 mod fam_dmn;
 mod fam_fe;
+mod fam_kern;
 mod fam_proxy;
 mod fam_sess;
 mod fam_shut;
@@ -32,6 +33,7 @@ fn run_case(c: &Val) -> Val {
         "tx" => fam_fe::run_tx(args),
         "sess" => fam_sess::run(args),
         "shut" => fam_shut::run(args),
+        "kern" => fam_kern::run(args),
         "iovs" => {
             let lens: Vec<usize> = args[0].as_l().unwrap_or(&[]).iter().map(|v| v.as_u64().unwrap_or(0) as usize).collect();
             let skip = args[1].as_u64().unwrap_or(0) as usize;
